@@ -99,6 +99,8 @@ func c01(c *Check) {
 		c.ArgIs(l, "C01/same-triple", "lookup.seq", m, 4, "{SEQ}")
 	}
 
+	c.Rule("C01/no-failure-reported-as-success", "on the failure edge of one error no function returns another error value that is provably nil at that point (a wrapped stale `err` instead of the error just tested): a failed step is never reported as success", 1)
+	noFailureAsSuccess(c, "C01/no-failure-reported-as-success", fnsInPackages(c, "/x/xibc/keeper", "/x/xibc/core/packet/keeper"))
 	c.Rule("C01/key-shape", "host.PacketReceiptKey is receipts/<src>/<dst>/sequences/<seq %d> (all three parameters, in order) and Get/Has/Set address it with their own (src,dst,seq) parameters", 4)
 	key := c.F("x/xibc/core/host.PacketReceiptKey")
 	sh := c.P.ShapeOfFunc(key)
